@@ -5,11 +5,11 @@ func init() {
 		ID:    "C09",
 		Title: "Downstream failures are contained and reported, never masked",
 		Kernels: []Kernel{
-			{Name: "downstream-answers", Pkg: "queryer", Files: []string{"queryer/c09.go"}, Entry: "VerifDownstreamAnswers", Mode: "seq",
+			{Name: "downstream-answers", Pkg: "queryer", Files: []string{"queryer/c09.go"}, Entry: "VerifDownstreamAnswers", Mode: "seq", Native: true,
 				Quick: map[string]int{"nmax": 2}, Thorough: map[string]int{"nmax": 3},
 				Reach:     []string{"failure signal", "answer accepted"},
 				Functions: []string{"queryer.(*MultiOpQueryer).Query", "queryer.(*MultiOpQueryer).queryBatch", "queryer.(*MultiOpQueryer).fetch", "queryer.(*MultiOpQueryer).fetchFile", "queryer.(*MultiOpQueryer).sendQueryRequest", "queryer.(*MultiOpQueryer).sendRequest"}},
-			{Name: "mutilated-answers", Pkg: ".", Files: []string{"root/fed.go", "root/c01.go", "root/c02.go", "root/c10.go", "root/c09.go"}, Entry: "VerifMutilatedAnswers", Mode: "seq",
+			{Name: "mutilated-answers", Pkg: ".", Files: []string{"root/fed.go", "root/c01.go", "root/c02.go", "root/c10.go", "root/c09.go"}, Entry: "VerifMutilatedAnswers", Mode: "seq", Native: true,
 				Reach: []string{"failure signal reported", "mutilation explored"}, Functions: pipelineFns},
 		},
 		Assume: []string{
